@@ -27,6 +27,7 @@ import Props.Tables
 import Proofs.Grammar
 import Proofs.Printer
 import Proofs.ApiGlue
+import Props.Bytes
 namespace Jmes.Props
 open Jmes Jmes.Parser Jmes.Spec
 
@@ -116,5 +117,14 @@ def isOk {α} : Res α → Bool
 example : isOk (parseTokens (N := Int) Spec.table
     [tk .uident (b "a"), tk .lbracket, tk .star, tk .rbracket, tk .lbracket, tk .uident (b "b"), tk .rbracket, eofTok 0]) = true := by
   decide +kernel
+
+open Jmes.Lexer in
+/-- Completeness on printed forms, from bytes: every rendering of a printed
+    concrete syntax tree compiles. -/
+theorem C04_written_sentences_compile_partial (e : PE N) (hw : Parser.wf e) (keys : List (TokType × Bytes)) (s : Bytes)
+    (hk : KeysOf (ppE e) keys) (hr : Rendered keys s) : ∃ ast : Node N, Api.compile Model.cfg s = .ok ast := by
+  refine ⟨node e, compile_rendered hk hr ?_⟩
+  rw [parseTokens_congr (sameDecisions_of_tableOK Generated.table Spec.table generated_table_ok spec_table_ok)]
+  exact round_trip_spec e hw
 
 end Jmes.Props
